@@ -852,4 +852,46 @@ theorem parse_sep_head {rest : Bytes} {c l adv : Nat} (h : parse rest = some (Re
   simp only [sz_WBSEP, sz_WBSET, sz_WBCOPY, sz_WBWRITE, sz_WBRESIZE, sz_WBSAVEPOINT, sz_WBRESET] at h
   grind
 
+/-- stopping at a savepoint that is the last record of the log is the same as running to the end -/
+theorem replayAux_stop_last (cfg : Cfg) (s s0 : Nat) (fuel : Nat) : ∀ (rest : Bytes) (pos : Nat) (first : Bool) (x : Bytes),
+    (s, Rec.savepoint) ∈ walkAux fuel rest pos → s + 12 = pos + rest.length →
+    (∀ q, (q, Rec.savepoint) ∈ walkAux fuel rest pos → q ≠ s0) →
+    replayAux cfg s fuel rest pos first x = replayAux cfg s0 fuel rest pos first x := by
+  induction fuel with
+  | zero => intro rest pos first x h; simp [walkAux] at h
+  | succ n ih =>
+    intro rest pos first x hmem hend hs0
+    simp only [walkAux] at hmem hs0
+    cases he : rest.isEmpty with
+    | true => simp [he] at hmem
+    | false =>
+      simp only [he, Bool.false_eq_true, if_false] at hmem hs0
+      cases hp : parse rest with
+      | none => simp [hp] at hmem
+      | some ra =>
+        obtain ⟨r, adv⟩ := ra
+        simp only [hp, List.mem_cons, Prod.mk.injEq] at hmem hs0
+        have h4 := parse_adv_pos hp
+        have ⟨hsa, _⟩ := parse_mark_adv hp
+        simp only [replayAux, he, Bool.false_eq_true, if_false, hp]
+        split
+        · rfl
+        · have hns0 : ¬ (r = Rec.savepoint ∧ s0 = pos) := fun ⟨h1, h2⟩ => hs0 pos (Or.inl ⟨rfl, h1.symm⟩) h2.symm
+          simp only [hns0, if_false]
+          rcases hmem with ⟨h1, h2⟩ | htail
+          · subst h1; subst h2
+            have hadv := hsa rfl
+            have hl : rest.length = 12 := by omega
+            have hd : rest.drop adv = [] := by
+              apply List.eq_nil_of_length_eq_zero; simp; omega
+            simp only [and_self, if_true, apply_mark_sp, hd]
+            cases n <;> simp [replayAux]
+          · have hge := walkAux_pos_ge _ _ _ _ _ htail
+            have hne : ¬ (r = Rec.savepoint ∧ s = pos) := by intro ⟨_, h2⟩; omega
+            simp only [hne, if_false]
+            have hfit : adv ≤ rest.length := by omega
+            split
+            · exact ih _ _ _ _ htail (by simp; omega) (fun q hq => hs0 q (Or.inr hq))
+            · rfl
+
 end IwModel.Wal
